@@ -13,6 +13,8 @@ import MesonModel.Install.GlueLemmas
 import MesonModel.Install.OnlyChanged
 import MesonModel.Install.TouchLemmas
 import MesonModel.Install.AllRules
+import MesonModel.Install.IdemRules
+import MesonModel.Install.SymlinkRules
 
 namespace MesonModel.Props.C11
 open MesonModel.Install MesonModel.Py
@@ -885,16 +887,82 @@ theorem install_idempotent_destinations_partial (p : Plan) (o : Opts) (fs : FS) 
   intro r hr hs
   rw [g2 r hr hs, g1 r hr hs, ruleNode_idem (mkCfg p o) (by simp [mkCfg, honly])]
 
+/-- **installing twice gives the same tree as installing once — every key**, for plans with empty directories
+(file targets, headers, man pages, empty directories, data; pairwise different destinations) installed into a fresh
+DESTDIR on a well-formed link-free tree: the second successful run changes nothing at all.  (`os.makedirs` over an
+existing path is a no-op because the first run leaves a well-formed tree, `install_LG`; an empty-directory rule
+re-applies an idempotent permission rule.) -/
+theorem install_idempotent_rules (p : Plan) (o : Opts) (fs : FS) (hp : PlanOK p) (hl : LinkFree p)
+    (hsub : p.subdirs = []) (hsym : p.symlinks = []) (htf : TargetsAreFiles p) (hdry : o.dryRun = false)
+    (honly : o.onlyChanged = false)
+    (hne : (mkCfg p o).destdir ≠ []) (hD : keyOfAbs (mkCfg p o).destdir ≠ [])
+    (hfresh : ∀ k, keyOfAbs (mkCfg p o).destdir <+: k → fs.get k = none) (hNL : NL fs) (hWF : WF fs)
+    (hnd : (ruleKeys (mkCfg p o) p).Nodup) (hok1 : (install p o fs).err = none)
+    (hok2 : (install p o (install p o fs).fs).err = none) :
+    ∀ k, (install p o (install p o fs).fs).fs.get k = (install p o fs).fs.get k := by
+  obtain ⟨n1, g1, _⟩ := exact_all_kinds_partial p o fs hp hl hsub hsym htf hdry hne hD hNL hnd hok1
+  obtain ⟨s1, _, hfs, _, hLG⟩ := install_LG p o fs hp hl hdry hne hD hfresh hNL hWF hok1
+  have hWF1 : WF (install p o fs).fs := by rw [hfs]; exact hLG.wf
+  have hd : isAbs (mkCfg p o).destdir = true := isAbs_resolveDestdir p.buildDir o.destdir hp.buildAbs hne
+  have hdest := dest_mkCfg p o hd
+  have hfs2 : (install p o (install p o fs).fs).err =
+      (installBody (mkCfg p o) p { fs := (install p o fs).fs, log := logHeader }).err := rfl
+  have hf : (installBody (mkCfg p o) p { fs := (install p o fs).fs, log := logHeader }).failed = false := by
+    rw [hfs2] at hok2; simp [St.failed, hok2]
+  rw [installBody_eq_rules _ p _ hsub hsym] at hf
+  have := rules_fold_fixed (mkCfg p o) (by simp [mkCfg, hdry]) (by simp [mkCfg, honly]) hD hdest (rulesOf p)
+    (rulesOk_of p hp hl htf) { fs := (install p o fs).fs, log := logHeader } n1 hWF1
+    (fun r hr hs => ⟨_, g1 r hr hs⟩) hf
+  intro k
+  show (installBody (mkCfg p o) p { fs := (install p o fs).fs, log := logHeader }).fs.get k = _
+  rw [installBody_eq_rules _ p _ hsub hsym]
+  exact this k
+
+/-- **created = planned for plans with `install_symlink`** (file targets, headers, man pages, empty directories, data,
+symlinks; no `install_subdir`): pairwise different destinations, every link lies directly in its install directory and
+no symlink rule's install directory passes through a link destination (`SymOK`; the link-free hypothesis of the other
+theorems is weakened to *no link on the path prefixes `os.makedirs` traverses*).  After a successful real run on a
+link-free tree: every selected symlink rule's destination is a link with exactly the declared target text (an older
+link there is replaced), the other rules' destinations are as in `exact_all_kinds_partial`, links exist only at the
+symlink rules' destinations, every other key is as before or a new directory.  `_partial`: first installation only;
+a re-installation over the links, and plans with subdirectories, are carried by the per-run correspondence. -/
+theorem exact_with_symlinks_partial (p : Plan) (o : Opts) (fs : FS) (hp : PlanOK p)
+    (hl : LinkFree { p with symlinks := [] }) (hsub : p.subdirs = []) (htf : TargetsAreFiles p)
+    (hdry : o.dryRun = false) (hne : (mkCfg p o).destdir ≠ []) (hD : keyOfAbs (mkCfg p o).destdir ≠ []) (hNL : NL fs)
+    (hsym : ∀ e ∈ p.symlinks, SymOK (mkCfg p o) (symKeys (mkCfg p o) p) e)
+    (hnd : (ruleKeys (mkCfg p o) p ++ symKeys (mkCfg p o) p).Nodup) (hok : (install p o fs).err = none) :
+    LinksIn (symKeys (mkCfg p o) p) (install p o fs).fs ∧
+    (∀ r ∈ rulesOf p, ruleSel (mkCfg p o) r = true →
+      (install p o fs).fs.get (ruleKey (mkCfg p o) r) = some (ruleNode (mkCfg p o) r (fs.get (ruleKey (mkCfg p o) r)))) ∧
+    (∀ e ∈ p.symlinks, selSym (mkCfg p o) e = true →
+      (install p o fs).fs.get (symKey (mkCfg p o) e) = some (.link e.target)) ∧
+    (∀ k, k ∉ ruleKeys (mkCfg p o) p ++ symKeys (mkCfg p o) p → (install p o fs).fs.get k = fs.get k ∨
+      (fs.get k = none ∧ (install p o fs).fs.get k = some (.dir (andNot 0o777 (mkCfg p o).procUmask)))) := by
+  have hd : isAbs (mkCfg p o).destdir = true := isAbs_resolveDestdir p.buildDir o.destdir hp.buildAbs hne
+  have hdest := dest_mkCfg p o hd
+  have hp' : PlanOK { p with symlinks := [] } := ⟨hp.buildAbs, hp.subdirs, hp.targets, hp.headers, hp.man, hp.data⟩
+  have hokR : ∀ r ∈ rulesOf p, ruleOk r := rulesOk_of { p with symlinks := [] } hp' hl htf
+  have hf : (installBody (mkCfg p o) p { fs := fs, log := logHeader }).failed = false := by
+    unfold install at hok; dsimp only at hok; simp [St.failed, hok]
+  exact body_exact_sym (mkCfg p o) (by simp [mkCfg, hdry]) hD hdest p hsub hokR hsym hnd
+    { fs := fs, log := logHeader } hNL hf
+
 /-- the full statement of exactness-by-idempotence for ALL plan kinds (install_subdir with excludes and
 strip_directory, install_symlink, symlink sources): a second successful `meson install` leaves every key as the first
-left it.  Open: neither proved nor refuted in Lean; carried by the per-run correspondence (model = real installer on
-generated plans with subdirectories, excludes, symlinks) and the tree-diff oracle. -/
+left it.  Proved parts: `install_idempotent` (file rules), `install_idempotent_rules` (file rules and empty directories,
+every key, via `WF` after the first run).  Open (neither proved nor refuted in Lean) for plans with install_subdir and
+for a re-installation over installed symlinks (every rule then runs on a tree that contains links); carried by the
+per-run correspondence (model = real installer on generated plans with subdirectories, excludes, symlinks) and the
+tree-diff oracle. -/
 def install_idempotent_full_statement : Prop :=
   ∀ (p : Plan) (o : Opts) (fs : FS), PlanOK p → o.dryRun = false → o.onlyChanged = false →
     (mkCfg p o).destdir ≠ [] → WF fs → (install p o fs).err = none → (install p o (install p o fs).fs).err = none →
     ∀ k, (install p o (install p o fs).fs).fs.get k = (install p o fs).fs.get k
 
-/-- the full statement of reversibility for ALL plan kinds (`uninstall_after_install_restores` without `LinkFree`) -/
+/-- the full statement of reversibility for ALL plan kinds (`uninstall_after_install_restores` without `LinkFree`).
+Proved for link-free plans (subdirectories with excludes and strip_directory, empty directories included):
+`uninstall_after_install_restores`.  Open for plans with install_symlink / symlink sources (the log invariant `LG`
+speaks of files and directories only); a concrete instance with a symlink is checked at the end of this file. -/
 def uninstall_after_install_full_statement : Prop :=
   ∀ (p : Plan) (o : Opts) (fs : FS), PlanOK p → o.dryRun = false → (mkCfg p o).destdir ≠ [] →
     keyOfAbs (mkCfg p o).destdir ≠ [] → (∀ k, keyOfAbs (mkCfg p o).destdir <+: k → fs.get k = none) →
@@ -1008,5 +1076,17 @@ example :
       (install demoPlan demoOpts demoFs).fs demoKeys = true ∧
     (install demoPlan demoOpts demoFs).written.all (fun k => (["d"].map String.toList).isPrefixOf k) = true := by
   decide +kernel
+
+/-- the hypotheses of `exact_with_symlinks_partial` are satisfiable (`demoPlan`: header, data, empty directory and a
+symlink next to the data file), and the link is there with its target text -/
+example :
+    PlanOK demoPlan ∧ LinkFree { demoPlan with symlinks := [] } ∧ TargetsAreFiles demoPlan ∧
+    (∀ e ∈ demoPlan.symlinks, SymOK (mkCfg demoPlan demoOpts) (symKeys (mkCfg demoPlan demoOpts) demoPlan) e) ∧
+    (ruleKeys (mkCfg demoPlan demoOpts) demoPlan ++ symKeys (mkCfg demoPlan demoOpts) demoPlan).Nodup ∧
+    (install demoPlan demoOpts demoFs).err = none ∧
+    (install demoPlan demoOpts demoFs).fs.get (["d", "opt", "t o", "l"].map String.toList) = some (.link "t".toList) := by
+  refine ⟨⟨by decide, by decide, by decide, by decide, by decide, by decide⟩,
+    ⟨by decide, by decide, by decide, by decide, by decide, by decide⟩, by decide, by decide +kernel, by decide +kernel,
+    by decide +kernel, by decide +kernel⟩
 
 end MesonModel.Props.C11
